@@ -43,8 +43,16 @@ TYPES += [
 ]
 TYPES += [
     dict(name="TupleIns", src="src/instruction/tuple.rs", path=[("struct", "Tuple")],
-         rewrites=[("pub struct Tuple", "pub struct TupleIns")]),
+         rewrites=[("pub struct Tuple", "pub struct TupleIns")],
+         post="pub type Tuple = TupleIns;   // the name instruction::tuple::Tuple has in /repo (bodies may use it in patterns / literals)"),
 ]
 TYPES += [
     dict(name="LocalVariable", src="src/instruction/local_variable.rs", path=[("enum", "LocalVariable")]),
+]
+
+TYPES += [
+    dict(name="TupleAccess", src="src/instruction/tuple_access.rs", path=[("struct", "TupleAccess")]),
+    dict(name="FieldAccess", src="src/instruction/field_access.rs", path=[("struct", "FieldAccess")], rewrites=[("Arc<str>", "Name")]),
+    dict(name="MutIns", src="src/instruction/mut.rs", path=[("struct", "Mut")], rewrites=[("pub struct Mut", "pub struct MutIns")]),
+    dict(name="Slicing", src="src/instruction/slicing.rs", path=[("struct", "Slicing")]),
 ]
